@@ -1,5 +1,7 @@
-//! G-base: generator of base OpenAPI documents over the object model, closed w.r.t. what survives the merge
-//! (nothing outside paths / components.schemas refers to a schema component).
+//! G-base: generator of base OpenAPI documents over the object model. `gen_base` is closed w.r.t. what survives
+//! the merge (nothing outside paths / components.schemas refers to a schema component); `gen_base_open` also makes
+//! bases whose carried-over components refer to schemas of the base (which the merge drops: the references dangle in
+//! the output, as the base's author asked for) and bases whose mandatory strings are empty.
 
 use crate::util::Rng;
 use serde_json::{json, Map, Value};
@@ -33,6 +35,48 @@ fn small_schema(rng: &mut Rng) -> Value {
 
 /// `rich`: use the whole object model; otherwise a conservative subset that openapiv3 round-trips verbatim.
 pub fn gen_base(rng: &mut Rng, rich: bool) -> Value {
+    gen_base_with(rng, rich, false)
+}
+
+/// As `gen_base`, plus (own random stream, so that the closed part stays what `gen_base` makes of the same seed):
+/// schemas of carried-over parameters, responses, headers and request bodies that are references to schema components
+/// of the base, defined there or not; empty `openapi`, `info.title`, `info.version` strings.
+pub fn gen_base_open(rng: &mut Rng, rich: bool) -> Value {
+    gen_base_with(rng, rich, true)
+}
+
+fn gen_base_with(rng: &mut Rng, rich: bool, open: bool) -> Value {
+    let mut v = gen_closed(rng, rich);
+    if !open {
+        return v;
+    }
+    let mut r2 = Rng::new(rng.next() ^ 0x0be9);
+    let rng = &mut r2;
+    const NAMES: [&str; 5] = ["Old", "r", "obj", "hash-00ff", "Gone"];
+    for ptr in [
+        "/components/parameters/limit/schema",
+        "/components/responses/NotFound/content/text~1plain/schema",
+        "/components/headers/X-Rate/schema",
+        "/components/headers/ETag/schema",
+        "/components/requestBodies/Body/content/application~1json/schema",
+    ] {
+        if let Some(slot) = v.pointer_mut(ptr) {
+            if rng.chance(1, 2) {
+                *slot = json!({"$ref": format!("#/components/schemas/{}", rng.pick(&NAMES))});
+            }
+        }
+    }
+    for ptr in ["/openapi", "/info/title", "/info/version"] {
+        if rng.chance(1, 8) {
+            if let Some(slot) = v.pointer_mut(ptr) {
+                *slot = json!("");
+            }
+        }
+    }
+    v
+}
+
+fn gen_closed(rng: &mut Rng, rich: bool) -> Value {
     let mut top = Map::new();
     top.insert("openapi".into(), json!(*rng.pick(&["3.0.3", "3.0.1", "3.0.0"])));
     let mut info = Map::new();
